@@ -163,7 +163,8 @@ type loggerWriter struct {
 }
 
 func (l *loggerWriter) Write(p []byte) (int, error) {
+	n := len(p)
 	p = bytes.TrimSpace(p)
 	l.logFunc(string(p))
-	return len(p), nil
+	return n, nil
 }
